@@ -44,14 +44,20 @@ CONSTANTS NSub,        \* sub-suite files that exist: 1..NSub
 Root == 0
 Suites == 0..NSub
 Cases == 1..NCases
-DeviationNames == {"JUnitActSyntaxIsSuccess"}     \* finding D6
+\* Named deviations of the program from this specification (DESIGN.md section 8).  A check always runs with
+\* Deviations = {}; the export also says what one deviation alone would make of a run.
+\*   JUnitActSyntaxIsSuccess (finding D6): the JUnit reporter takes a case whose [act] phase has a syntax error
+\*     for a successful one - no failure/error element, counted in neither `failures` nor `errors`
+DeviationNames == {"JUnitActSyntaxIsSuccess"}
 
 \* ---- how a case ends -------------------------------------------------------------------------
 Kinds == {"PASS", "FAIL", "XFAIL", "XPASS", "SKIPPED", "HARD_ERROR", "VALIDATION_ERROR", "SYNTAX_ERROR",
-          "ACT_SYNTAX_ERROR", "FILE_ACCESS_ERROR", "UNREADABLE", "PRE_PROCESS_ERROR", "INTERNAL_ERROR"}
-\* the exit identifier the case is reported with
+          "ACT_SYNTAX_ERROR", "FILE_ACCESS_ERROR", "UNREADABLE", "PRE_PROCESS_ERROR", "INTERNAL_ERROR", "UNDECODABLE"}
+\* the exit identifier the case is reported with ("SOME_ERROR": the case cannot be processed at all - its file
+\* is not text - and which of the error identifiers names that is left open)
 Ident(k) == CASE k = "ACT_SYNTAX_ERROR" -> "SYNTAX_ERROR"
               [] k = "UNREADABLE"       -> "FILE_ACCESS_ERROR"
+              [] k = "UNDECODABLE"      -> "SOME_ERROR"
               [] OTHER                  -> k
 \* the case gets as far as executing its first [setup] instruction (which leaves a mark)
 Executes(k) == k \in {"PASS", "FAIL", "XFAIL", "XPASS", "HARD_ERROR", "INTERNAL_ERROR"}
